@@ -629,4 +629,39 @@ theorem spread_variance_nonneg (c : ℝ) (hr0 : ∀ i, 0 ≤ at' m.r i) (hmono :
   · rw [at'_ofFn _ i h]; exact mul_nonneg (hr0 i) (sq_nonneg _)
   · rw [at'_ofFn_ge _ i (by omega)]
 
+/-- **the ionisation and recombination rates are non-negative** for every state with non-negative densities, whenever the cross sections used
+are non-negative (C07–C09 for the package's vectors) and the current density is: `σ ≥ 0`, smoothed density `≥ 0`, flux `≥ 0`, overlap factor
+in `[0, 1]`. This discharges the sign hypothesis of `C03.empty_gains` for these three processes. -/
+theorem reaction_rates_nonneg (k : ℕ) (hj : 0 ≤ m.j) (hy : 0 ≤ at' y k)
+    (hr0 : ∀ i, 0 ≤ at' m.r i) (hmono : ∀ i, i + 1 < m.r.size → at' m.r i ≤ at' m.r (i + 1)) (hix : m.ix + 1 ≤ m.r.size)
+    (hei : 0 ≤ at' (stage m y).xs_ei k) (hrr : 0 ≤ at' (stage m y).xs_rr k) (hdr : 0 ≤ at' (stage m y).xs_dr k) :
+    0 ≤ at' (stage m y).R_ei k ∧ 0 ≤ at' (stage m y).R_rr k ∧ 0 ≤ at' (stage m y).R_dr k := by
+  by_cases hk : k < m.nq
+  · have hn : 0 ≤ at' (stage m y).n k := by rw [C03.at'_n m y k hk]; exact C03.smooth_nonneg _ hy
+    have hje : 0 ≤ (stage m y).je := by
+      rw [je_formula]; have := Const.Q_E_pos
+      positivity
+    have hf := (fei_unit_interval m y k hk hr0 hmono hix).1
+    refine ⟨?_, ?_, ?_⟩
+    · rw [C03.stage_R_ei]; split_ifs
+      · rw [at'_ofFn _ k hk]; positivity
+      · rw [at'_replicate]
+    · rw [C03.stage_R_rr]; split_ifs
+      · rw [at'_ofFn _ k hk]; positivity
+      · rw [at'_replicate]
+    · rw [C03.stage_R_dr]; split_ifs
+      · rw [at'_ofFn _ k hk]; positivity
+      · rw [at'_replicate]
+  · have hge : m.nq ≤ k := by omega
+    refine ⟨?_, ?_, ?_⟩
+    · rw [C03.stage_R_ei]; split_ifs
+      · rw [at'_ofFn_ge _ k hge]
+      · rw [at'_replicate]
+    · rw [C03.stage_R_rr]; split_ifs
+      · rw [at'_ofFn_ge _ k hge]
+      · rw [at'_replicate]
+    · rw [C03.stage_R_dr]; split_ifs
+      · rw [at'_ofFn_ge _ k hge]
+      · rw [at'_replicate]
+
 end C05
